@@ -181,39 +181,49 @@ static struct sock_addr * mk(size_t nl)
 void h_roundtrip(void)
 {
 	const size_t H = 2 * sizeof(int) + sizeof(socklen_t);
-	struct sock_addr * sa = mk(NAMELEN);
-	if (sa == NULL) return;
+	struct sock_addr * sa = mk(NAMELEN), * sb = NULL, * sc = NULL, * sd = NULL;
+	ASSUME(sa != NULL);
 	uint8_t * buf = NULL; size_t buflen = 0;
 	int rc = sock_addr_serialize(sa, &buf, &buflen);
+#ifndef MMF
 	CHECK(rc == 0, "serialize succeeds when allocation does");
-	if (rc != 0) return;
+#endif
+	CHECK(rc == 0 || rc == -1, "documented return values");
+	if (rc != 0) goto out;
 	CHECK(buflen == H + NAMELEN, "serialised length = header + namelen");
 #ifdef VH_CBMC
 	CHECK(__CPROVER_OBJECT_SIZE(buf) == buflen, "buffer is exactly buflen bytes");
 #endif
-	struct sock_addr * sb = sock_addr_deserialize(buf, buflen);
+	sb = sock_addr_deserialize(buf, buflen);
+#ifndef MMF
 	CHECK(sb != NULL, "deserialize accepts what serialize produced");
-	if (sb == NULL) return;
+#endif
 	size_t k = nd_size(); ASSUME(k < NAMELEN + 1);
-	CHECK(sb->ai_family == sa->ai_family && sb->ai_socktype == sa->ai_socktype && sb->namelen == sa->namelen, "round trip: fields");
-	if (k < NAMELEN) CHECK(((uint8_t *)sb->name)[k] == ((uint8_t *)sa->name)[k], "round trip: name bytes");
-	CHECK(sock_addr_cmp(sa, sb) == 0, "round trip compares equal");
-	struct sock_addr * sc = sock_addr_dup(sa);
+	if (sb != NULL) {
+		CHECK(sb->ai_family == sa->ai_family && sb->ai_socktype == sa->ai_socktype && sb->namelen == sa->namelen, "round trip: fields");
+		if (k < NAMELEN) CHECK(((uint8_t *)sb->name)[k] == ((uint8_t *)sa->name)[k], "round trip: name bytes");
+		CHECK(sock_addr_cmp(sa, sb) == 0, "round trip compares equal");
+	}
+	sc = sock_addr_dup(sa);
+#ifndef MMF
 	CHECK(sc != NULL, "dup succeeds when allocation does");
-	if (sc == NULL) return;
-	CHECK(sc->ai_family == sa->ai_family && sc->ai_socktype == sa->ai_socktype && sc->namelen == sa->namelen && sc->name != sa->name, "dup: fields, fresh name object");
-	if (k < NAMELEN) CHECK(((uint8_t *)sc->name)[k] == ((uint8_t *)sa->name)[k], "dup: name bytes");
-	CHECK(sock_addr_cmp(sa, sc) == 0, "dup compares equal");
+#endif
+	if (sc != NULL) {
+		CHECK(sc->ai_family == sa->ai_family && sc->ai_socktype == sa->ai_socktype && sc->namelen == sa->namelen && sc->name != sa->name, "dup: fields, fresh name object");
+		if (k < NAMELEN) CHECK(((uint8_t *)sc->name)[k] == ((uint8_t *)sa->name)[k], "dup: name bytes");
+		CHECK(sock_addr_cmp(sa, sc) == 0, "dup compares equal");
+	}
 	/* cmp against an arbitrary other address of the same or another length */
 	size_t nl2 = nd_bool() ? NAMELEN : (NAMELEN ? NAMELEN - 1 : 1);
-	struct sock_addr * sd = mk(nl2);
-	if (sd == NULL) return;
+	sd = mk(nl2);
+	ASSUME(sd != NULL);
 	int same = sd->ai_family == sa->ai_family && sd->ai_socktype == sa->ai_socktype && nl2 == NAMELEN;
 	int diffbyte = 0;
 	if (nl2 == NAMELEN) for (size_t i = 0; i < NAMELEN; i++) if (((uint8_t *)sd->name)[i] != ((uint8_t *)sa->name)[i]) diffbyte = 1;
 	CHECK((sock_addr_cmp(sa, sd) != 0) == !(same && !diffbyte), "cmp is non-zero iff family, type, length or a name byte differs");
 	REACHED();
-	sock_addr_free(sa); sock_addr_free(sb); sock_addr_free(sc); sock_addr_free(sd); free(buf);
+out:
+	sock_addr_free(sa); sock_addr_free(sb); sock_addr_free(sc); sock_addr_free(sd); free(buf);	/* with --memory-leak-check: failed calls leave nothing behind */
 }
 
 /* ---- reference for the address grammar ---- */
